@@ -16,6 +16,10 @@ implementation did, independently of the model):
   caps   WMS GetCapabilities with a partial result against Auth.wms_capabilities (FilteredRootLayer).
   utm    tile services on a UTM grid with a limit given in EPSG:4326 (curved tile edges): decisions against
          Auth.tile_render, every second pixel against its true latitude (pyproj).
+  invalid  (fixed probe, independent of the seed) limited_to given as a self-crossing polygon ("bow tie") in the SRS of
+         the request, per layer and global, WKT and shapely object, WMS / TMS / KML / WMTS and the mask functions
+         directly: an error answer delivers nothing; if an image is delivered, no pixel more than one pixel outside
+         the geometry may be visible (oracle only; the same area as a valid MULTIPOLYGON is the control).
   Configurations also vary services.wms.bbox_srs extents, on_source_errors: raise, sources with their own coverage
   (clip true / false); requests include deep zoom (0.2 m per pixel) with geometries thousands of km wide.
   The geometric predicates the model takes as inputs (point in geometry, tile contains / intersects, pixel
